@@ -2,6 +2,7 @@
  * whose fragments each live in their own exact-size heap block (ASan sees any
  * access past a fragment, past the iovec array, past a target part).
  * Case line:  <id> <frags> <op> <args> ...       (see ml/c17_driver.ml)
+ * A fragment written "_" is the empty fragment { NULL, 0 } (an empty hex string: empty with a live address).
  * Token per operation:  <output>|<remaining message: fragments as hex joined by "/"> */
 #include "common.h"
 #include <errno.h>
@@ -40,11 +41,13 @@ void *__wrap_mpt_array_slice(MPT_STRUCT(array) *a, size_t off, size_t len)
 static long parse_lim(const char *s) { return (!strcmp(s, "N")) ? -1 : (!strcmp(s, "t")) ? -2 : atol(s); }
 static int noparts;               /* message without any part (ndat = 0 for the iovec functions) */
 
-/* exact-size block holding the bytes of a hex token ("-" or "" = empty) */
+/* exact-size block holding the bytes of a hex token ("-" or "" = empty, in a live zero-size block;
+ * "_" = empty WITHOUT address: { NULL, 0 }, what MPT_MESSAGE_INIT and a zeroed iovec are) */
 static void *blk(const char *s, size_t n, size_t *len)
 {
 	uint8_t *b;
 	size_t i;
+	if (n == 1 && s[0] == '_') { *len = 0; return 0; }
 	if (n == 1 && s[0] == '-') n = 0;
 	n /= 2;
 	b = malloc(n);
@@ -189,6 +192,8 @@ static void run_case(int ntok, char **tok)
 			if (strcmp(s, "n")) for (p = s, nd = 1; *p; ++p) if (*p == ',') ++nd;
 			d = malloc(nd * sizeof(*d));
 			for (i = 0; i < nd; i++) {
+				/* "_": empty target part without address */
+				if (*s == '_') { d[i].iov_len = 0; d[i].iov_base = 0; ++s; if (*s == ',') ++s; continue; }
 				d[i].iov_len = strtol(s, (char **) &s, 10);
 				d[i].iov_base = malloc(d[i].iov_len);
 				memset(d[i].iov_base, 0xee, d[i].iov_len);
